@@ -1,6 +1,7 @@
 import ActixModel.Util
 import ActixModel.Model.Negotiate
 import ActixModel.Model.Encoder
+import ActixModel.Model.Decoder
 /-
 Line-protocol driver for C13 (see `harness/src/props/c13.rs`, same grammar).
 
@@ -8,12 +9,13 @@ Line-protocol driver for C13 (see `harness/src/props/c13.rs`, same grammar).
   resp ae=<hdr|-> st=<n> hce=<v|-> hvary=<v|-> ct=<mime|-> kind=<full|sized|stream|none>
        body=<c|r><seed> ev=<tok,…> j=<n,…>
   req  ce=<v|-> body=<c|r><seed> n=<len> ev=<tok,…> j=<n,…>
+  wire <as resp, plus hcl=<v|->>      (response as framed on an h1 connection)
 
 `<hdr>`: header lines separated by `|`, blanks written as `_`.  `ev` tokens: a number = the next
 chunk with that many bytes, `p` = Pending, `e` = body error.
 -/
 namespace ActixModel.Drv.C13
-open ActixModel.Util ActixModel.Negotiate ActixModel.Encoder
+open ActixModel.Util ActixModel.Negotiate ActixModel.Encoder ActixModel.Decoder
 
 def unplus (s : String) : String := String.ofList (s.toList.map fun c => if c == '_' then ' ' else c)
 def plus (s : String) : String := String.ofList (s.toList.map fun c => if c == ' ' then '_' else c)
@@ -88,6 +90,12 @@ def mkEvs : List Tok → Bytes → List BodyEv
   | .p :: r, bs => .pending :: mkEvs r bs
   | .e :: r, bs => .err :: mkEvs r bs
 
+/-- `toyCodec` applied to one chunk: header, body, trailer -/
+def encRestToy (orig : Bytes) : Bytes :=
+  let s1 := toyCodec.write toyCodec.init orig
+  let r := toyCodec.take s1
+  r.1 ++ toyCodec.finish r.2
+
 def parseNats (s : String) : List Nat := (s.splitOn ",").filterMap (·.toNat?)
 
 def optVal (ws : List String) (k : String) : Option String :=
@@ -113,7 +121,7 @@ def showList (l : List String) : String := if l.isEmpty then "-" else joinWith "
 
 def showNats (l : List Nat) : String := if l.isEmpty then "-" else joinWith "," (l.map toString)
 
-def runResp (ws : List String) : String :=
+def runRespWith (wire : Bool) (ws : List String) : String :=
   let ae : Option AE := match kv ws "ae" with
     | some "-" => none
     | some h => some (parseAE (headerLines h))
@@ -148,12 +156,58 @@ def runResp (ws : List String) : String :=
         | none => "chunks=* n=! sum=!"
       else "chunks=* n=- sum=-"
     else "chunks=" ++ showNats (chunks.map List.length) ++ " " ++ showSum chunks.flatten
+  -- which path each chunk takes (the harness observes it through a gated blocking pool)
+  let pathStr :=
+    if isEnc then
+      let p := String.ofList ((chunksOf r.evs).map fun b => if Encoder.inPlaceCode b then 'I' else 'B')
+      if p.isEmpty then "-" else p
+    else "-"
+  if wire then
+    let fr := h1Framing r.size r.head.noChunking (optVal ws "hcl")
+    let sumStr :=
+      if isEnc then
+        match toyDecode chunks.flatten with
+        | some d => showSum d
+        | none => "n=! sum=!"
+      else showSum chunks.flatten
+    "st=" ++ toString r.head.status ++
+      " ce=" ++ showList (hGetAll r.head.headers "content-encoding") ++
+      " vary=" ++ showList (hGetAll r.head.headers "vary") ++
+      " te=" ++ (if fr.1 then "chunked" else "-") ++
+      " cl=" ++ (match fr.2 with | some v => v | none => "-") ++ " " ++ sumStr ++ " end=" ++ fin
+  else
   "st=" ++ toString r.head.status ++
     " ce=" ++ showList (hGetAll r.head.headers "content-encoding") ++
     " vary=" ++ showList (hGetAll r.head.headers "vary") ++
-    " size=" ++ showSize r.size ++ " " ++ bodyStr ++ " end=" ++ fin
+    " size=" ++ showSize r.size ++ " " ++ bodyStr ++ " path=" ++ pathStr ++ " end=" ++ fin
 
-def runReq (_ws : List String) : String := "unimplemented"
+def runResp (ws : List String) : String := runRespWith false ws
+
+/-- cut the (encoded) payload by the chunk tokens; what is left over forms a last chunk -/
+def mkPayload : List Tok → Bytes → List BodyEv
+  | [], bs => if bs.isEmpty then [] else [.chunk bs]
+  | .sz n :: r, bs => .chunk (bs.take n) :: mkPayload r (bs.drop n)
+  | .p :: r, bs => .pending :: mkPayload r bs
+  | .e :: r, bs => .err :: mkPayload r bs
+
+def runReq (ws : List String) : String :=
+  let n := kvNat ws "n" 0
+  let orig := genBody ((kv ws "body").getD "c0") n
+  let ce := optVal ws "ce"
+  let bad := kvNat ws "bad" 0
+  let dec := decoderFor ce
+  -- what is sent: the store-codec image of the body if the label names a coding (the harness
+  -- sends the real compressor's image), the body itself otherwise or when `bad=1`
+  let sent := if dec.isSome && bad == 0 then encRestToy orig else orig
+  let toks := parseToks ((kv ws "ev").getD "")
+  let evs := mkPayload toks sent
+  let joins := parseNats ((kv ws "j").getD "")
+  let s := initDec toyDCodec dec.isSome
+  let outs := dDriveAt Decoder.inPlaceCode toyDCodec (dFuelFor s evs joins) s evs joins
+  match outs.getLast? with
+  | some .done => "st=200 " ++ showSum (outChunks outs).flatten
+  | some .err => "st=400"
+  | _ => "hang"
 
 def run (line : String) : String :=
   let ws := words line
@@ -161,6 +215,7 @@ def run (line : String) : String :=
   | "neg" :: r => runNeg r
   | "resp" :: r => runResp r
   | "req" :: r => runReq r
+  | "wire" :: r => runRespWith true r
   | _ => "bad-case"
 
 end ActixModel.Drv.C13
